@@ -453,6 +453,14 @@ func extractReader(w *World, pkg *ssa.Package) (*readerTable, []string) {
 					return (k == s) == (bo.Op == token.EQL), true
 				}
 			}
+			// a predicate of the package applied to the state (a method on a named state type)
+			if c, ok := cond.(*ssa.Call); ok && len(c.Call.Args) == 1 && strip(c.Call.Args[0]) == ssa.Value(statePhi) {
+				if sf := staticCallee(c); sf != nil && sf.Blocks != nil && fnPkg(sf) == pkg.Pkg {
+					if v, ok := evalIntPredicate(sf, s); ok {
+						return v, true
+					}
+				}
+			}
 			return false, false
 		})
 		// which allow call is reachable for this state (before the error test)
@@ -1662,4 +1670,95 @@ func isMembershipHelper(fn *ssa.Function) bool {
 		}
 	}
 	return sawTrue && sawFalse
+}
+
+// evalIntPredicate evaluates a bool function of one integer parameter for a
+// constant argument by following the branches that compare the parameter with
+// constants (conditional constant propagation; no loops, no calls).
+func evalIntPredicate(fn *ssa.Function, arg int64) (bool, bool) {
+	if len(fn.Params) != 1 || fn.Signature.Results().Len() != 1 {
+		return false, false
+	}
+	p := fn.Params[0]
+	var prev *ssa.BasicBlock
+	var evalB func(v ssa.Value, depth int) (bool, bool)
+	evalI := func(v ssa.Value) (int64, bool) {
+		v = stripInt(v)
+		if v == ssa.Value(p) {
+			return arg, true
+		}
+		return constInt(v)
+	}
+	evalB = func(v ssa.Value, depth int) (bool, bool) {
+		if depth > 10 {
+			return false, false
+		}
+		if b, ok := constBool(v); ok {
+			return b, true
+		}
+		switch x := v.(type) {
+		case *ssa.UnOp:
+			if x.Op == token.NOT {
+				b, ok := evalB(x.X, depth+1)
+				return !b, ok
+			}
+		case *ssa.Phi:
+			if prev != nil {
+				for i, q := range x.Block().Preds {
+					if q == prev {
+						return evalB(x.Edges[i], depth+1)
+					}
+				}
+			}
+		case *ssa.BinOp:
+			a, ok1 := evalI(x.X)
+			b, ok2 := evalI(x.Y)
+			if ok1 && ok2 {
+				switch x.Op {
+				case token.EQL:
+					return a == b, true
+				case token.NEQ:
+					return a != b, true
+				case token.LSS:
+					return a < b, true
+				case token.LEQ:
+					return a <= b, true
+				case token.GTR:
+					return a > b, true
+				case token.GEQ:
+					return a >= b, true
+				}
+			}
+		}
+		return false, false
+	}
+	b := fn.Blocks[0]
+	for steps := 0; steps < 200; steps++ {
+		switch t := b.Instrs[len(b.Instrs)-1].(type) {
+		case *ssa.If:
+			c, ok := evalB(t.Cond, 0)
+			if !ok {
+				return false, false
+			}
+			prev = b
+			if c {
+				b = b.Succs[0]
+			} else {
+				b = b.Succs[1]
+			}
+		case *ssa.Jump:
+			prev = b
+			b = b.Succs[0]
+		case *ssa.Return:
+			return evalB(t.Results[0], 0)
+		default:
+			return false, false
+		}
+		for _, in := range b.Instrs {
+			if _, isCall := in.(ssa.CallInstruction); isCall {
+				return false, false
+			}
+		}
+	}
+	return false, false
 }
